@@ -43,11 +43,27 @@ thread_local! {
     static CUR_OP: RefCell<String> = const { RefCell::new(String::new()) };
 }
 
+thread_local! {
+    /// when set, every operation description is also written to this file before the operation
+    /// starts: a plugin that panics aborts the process (FFI boundary) without running this
+    /// process's panic hook, and the file then tells which call did not return
+    static PENDING: RefCell<Option<String>> = const { RefCell::new(None) };
+}
+
+pub fn set_pending_file(path: Option<String>) {
+    PENDING.with(|p| *p.borrow_mut() = path);
+}
+
 pub fn set_op(s: &str) {
     CUR_OP.with(|c| {
         let mut c = c.borrow_mut();
         c.clear();
         c.push_str(s);
+    });
+    PENDING.with(|p| {
+        if let Some(path) = p.borrow().as_ref() {
+            let _ = std::fs::write(path, s);
+        }
     });
 }
 
